@@ -1,0 +1,22 @@
+//go:build verif
+
+package ios
+
+// Contracts for the deductive checker in /verif (comment-only file).
+
+//vc:func (*State).ApplyCommands
+//vc:  requires[C11] !isCompareRun
+//vc:func (*State).prepareDevice
+//vc:  requires[C11] !isCompareRun
+//vc:func (*State).writeMem
+//vc:  requires[C11] !isCompareRun
+//vc:func (*State).cmd
+//vc:  requires[C11] !isCompareRun
+//vc:func (*State).sendReloadCmd
+//vc:  requires[C11] !isCompareRun
+//vc:func (*State).cancelReload
+//vc:  requires[C11] !isCompareRun
+//vc:func (*State).scheduleReload
+//vc:  requires[C11] !isCompareRun
+//vc:func (*State).extendReload
+//vc:  requires[C11] !isCompareRun
